@@ -68,6 +68,8 @@ def run_case(rs, ctx):
         ctx.violation("Simulator.run raised %s: %s" % (type(ex).__name__, str(ex)[:120]), wit, kind="simulator_raised")
         return
     n = len(spec["d"])
+    if 0 < spec.get("chunk_size_used", 0) < spec["n_test"]:
+        ctx.count("multi_chunk_simulations")
     want_idx = simreplay.expected_split(n, p["test_size"], p["is_ordered"], p["seed"])
     ctx.ev()
     if [int(i) for i in sim.test_indices] != [int(i) for i in want_idx]:
@@ -95,7 +97,7 @@ def run_case(rs, ctx):
         t = (train[0], train[1], train[2] if ctxual else None)
         te = (test[0], test[1], test[2] if ctxual else None)
         try:
-            preds, exps = simreplay.replay(tw, kind, t, te, bs)
+            preds, exps = simreplay.replay(tw, kind, t, te, bs, spec.get("chunk_size_used"))
         except Exception as ex:  # noqa: BLE001
             ctx.count("replay_raised_" + type(ex).__name__)
             continue
